@@ -372,6 +372,8 @@ fn c15_extract() -> R {
         ("u8 5", 5u8.into()), ("u16 300", 300u16.into()), ("u64 max", u64::MAX.into()), ("i -1", (-1i8).into()), ("i64 min", i64::MIN.into()),
         ("f 1.5", 1.5f64.into()), ("f 2.0", 2.0f64.into()), ("text", "hello".into()), ("empty text", "".into()), ("bytes", CBOR::to_byte_string([1u8, 2])),
         ("true", true.into()), ("false", false.into()), ("date", dcbor::Date::from_timestamp(100.0).into()), ("tagged", CBOR::to_tagged_value(100u64, 1u8)), ("array", vec![1u8].into()),
+        ("tagged bytes", CBOR::to_tagged_value(40012u64, CBOR::to_byte_string([7u8; 32]))), ("tagged text", CBOR::to_tagged_value(32u64, "https://example.com")),
+        ("tagged float", CBOR::to_tagged_value(100u64, 1.5f64)), ("tagged bool", CBOR::to_tagged_value(100u64, true)), ("doubly tagged", CBOR::to_tagged_value(100u64, CBOR::to_tagged_value(1u64, 5u8))),
     ];
     let (name, v) = &vals[choice(vals.len())];
     let leaf = Envelope::new(v.clone());
@@ -382,10 +384,21 @@ fn c15_extract() -> R {
     let src_is_subject = !matches!(kind(&e.subject()), Kind::Leaf) || dg(&e.subject()) == dg(&leaf);
     rt::assume(src_is_subject)?;
     let from_obj = dg(&e.subject()) != dg(&leaf);
-    let _ = holder;
     macro_rules! ext { ($t:ty) => {{
         op(concat!("extract::<", stringify!($t), ">"));
-        let r: anyhow::Result<$t> = if from_obj { e.extract_object_for_predicate::<$t>("k") } else { e.extract_subject::<$t>() };
+        // holder 0: the extract_* route (TryFrom<CBOR>); holder 1: the TryFrom<Envelope> route (try_as / try_object_for_predicate / T::try_from)
+        let r: anyhow::Result<$t> = match (holder, from_obj) {
+            (0, true) => e.extract_object_for_predicate::<$t>("k"), (0, false) => e.extract_subject::<$t>(),
+            (_, true) => e.try_object_for_predicate::<$t>("k"), (_, false) => e.subject().try_as::<$t>(),
+        };
+        if holder == 1 {
+            // the two routes agree on success and on the value
+            let other: anyhow::Result<$t> = if from_obj { e.extract_object_for_predicate::<$t>("k") } else { e.extract_subject::<$t>() };
+            let (a, b) = (r.as_ref().ok().map(|x| CBOR::from(x.clone()).to_cbor_data()), other.ok().map(|x| CBOR::from(x).to_cbor_data()));
+            ensure!(a == b, "typed extraction through TryFrom<Envelope> disagrees with extract_*", "{} as {}: {:?} vs {:?}", name, stringify!($t), a.map(hex::encode), b.map(hex::encode));
+            let direct: anyhow::Result<$t> = <$t>::try_from(if from_obj { must!(e.object_for_predicate("k"), "object lookup failed") } else { e.subject() });
+            ensure!(direct.ok().map(|x| CBOR::from(x).to_cbor_data()) == r.as_ref().ok().map(|x| CBOR::from(x.clone()).to_cbor_data()), "T::try_from(envelope) disagrees with try_as", "{} as {}", name, stringify!($t));
+        }
         r.ok().map(|x| CBOR::from(x).to_cbor_data())
     }}; }
     let got: Option<Vec<u8>> = match ty {
